@@ -18,6 +18,7 @@ Mirrors the Go code of /repo **as it is now** (after the `fix:` commits), functi
 | `types/hashtype.go     HashEntry.ToKey / Equals` (keyed like the 2-array)     | `kb`, `veq`                  |
 | `types/hashtype.go     Hash.ToKey` (entries sorted by their element keys)     | `kbE`, `sortB`, `bytesLe`    |
 | `types/hashtype.go     Hash.valueIndex / get / Get / IncludesKey`            | `lookupLast`, `hashGet`      |
+| `types/hashtype.go     MutableHashValue.Put / mergeEntries`                  | `hashPut`                    |
 | `types/hashtype.go     Hash.Equals` (iterates the receiver's *index*)          | `veqE`                       |
 | `types/sensitivetype.go Sensitive.Equals` (never), no `ToKey` (→ INVALID_MAP_KEY) | `veq`, `keyable`, `key`  |
 | `types/types.go        appendKey` type arm + `appendTypeParamKey`            | `tyKey`, `tyKeys`         |
@@ -384,6 +385,12 @@ end
 
 /-- `Hash.Get(k)` -/
 def hashGet (es : List (Val × Val)) (k : Val) : Option Val := (lookupLast (kb k) es).map (·.2)
+
+/-- `MutableHashValue.Put` (`mergeEntries` with one entry): the entry indexed under the same key bytes is replaced in
+    place, else the new entry is appended.  A `MutableHashValue` is otherwise the `Hash` it embeds: `Equals`, `ToKey`,
+    `Get` are the promoted methods, and `Hash.Equals` accepts one as its argument. -/
+def hashPut (es : List (Val × Val)) (k v : Val) : List (Val × Val) :=
+  if es.any (fun e => kb e.1 == kb k) then es.map (fun e => if kb e.1 == kb k then (k, v) else e) else es ++ [(k, v)]
 
 /-- `Array.Unique` / `UniqueValues`: first occurrence wins, by key -/
 def uniqueAux (seen : List Bytes) : List Val → List Val
